@@ -356,6 +356,13 @@ def run(R):
         if ok and meth == 'encode':
             ok = any(isinstance(x, ast.AugAssign) and ast.unparse(x.target) == 'offset' and 'field.encode_into(field.get_value(self), markers, wire_view, offset)' in ast.unparse(x.value)
                      for x in ast.walk(loops[0].ast))
+        if not ok and not loops and meth == '__eq__':
+            # the comparison written with a quantifier: all(.. for field in self._encoded_fields) / not any(..), no filter
+            q_ = [g for x in ast.walk(cx.f.node) if isinstance(x, ast.Call) and isinstance(x.func, ast.Name) and x.func.id in ('all', 'any') and len(x.args) == 1
+                  and isinstance(x.args[0], (ast.GeneratorExp, ast.ListComp)) for g in [x.args[0]]]
+            if len(q_) == 1 and len(q_[0].generators) == 1 and ast.unparse(q_[0].generators[0].iter) == 'self._encoded_fields' and not q_[0].generators[0].ifs:
+                R.ok('C08.LOP.1', inst, site(cx, cx.f.node), 'quantifier over self._encoded_fields')
+                continue
         if ok:
             R.ok('C08.LOP.1', inst, site(cx, loops[0].ast))
         else:
